@@ -33,6 +33,8 @@ class Canary:
 
     def string(self, fancy: bool = True) -> str:
         n = self._next()
+        if fancy and self.rng.random() < 0.04:
+            return ""  # the empty string is a value too (falsy: `if x:` guards drop it)
         base = f"c{n}z" + "".join(self.rng.choice("abcdefghkmnpqrstuvwxy") for _ in range(4))
         if fancy:
             base += self.rng.choice(["", "", "", " sp", "-d", "_u", ".p", "~t", "é", "+p", "%25", "&a=b", "=e", ",c", ";s", "?q", "#h", "/s", "\"q", "'a", "\\b", "ü ñ"])
